@@ -2,8 +2,8 @@
 # Determinism self-test: every check, several master seeds, each run twice at different
 # worker counts in separate processes; the run digests (all counters, all distinct-sets,
 # all violation classes, in case order) must agree. Exit 2 on divergence (harness error).
-ids="${1:-$(./sim/target/release/nervus-sim list)}"; seeds="${2:-11 12 13}"
 cd "$(dirname "$0")" && ./check build || exit 2
+ids="${1:-$(./sim/target/release/nervus-sim list)}"; seeds="${2:-11 12 13}"
 bad=0
 for id in $ids; do for s in $seeds; do
   a=$(VERIF_SEED=$s VERIF_WORKERS=16 VERIF_NO_MINIMISE=1 ./sim/target/release/nervus-sim check $id quick 2>/dev/null | grep '^run_digest=')
